@@ -102,10 +102,14 @@ def _make_host(cfg, ctl):
         ns["validate"] = lambda self, obj, name, value: ctl.validate(value)
     if "p" in cfg:
         ns["post_setattr"] = lambda self, obj, name, value: ctl.post(value)
-    if "o" in cfg:
-        ns["setattr_original_value"] = True
-    if "q" in cfg:
-        ns["post_setattr_original_value"] = True
+    def as_ctrait(self):
+        ct = TraitType.as_ctrait(self)
+        if "o" in cfg:
+            ct.setattr_original_value = True          # TRAIT_SETATTR_ORIGINAL_VALUE (as Expression does)
+        if "q" in cfg:
+            ct.post_setattr_original_value = True     # TRAIT_POST_SETATTR_ORIGINAL_VALUE (as Supports does)
+        return ct
+    ns["as_ctrait"] = as_ctrait
     LT = type("LT", (TraitType,), ns)
     md = {}
     if "c" in cfg:
@@ -151,6 +155,8 @@ def run_r(case):
     gc.collect()
     base = [sys.getrefcount(pool[i]) for i in range(POOL)]   # measured exactly as below (no loop variable)
     outs, hits, tags = [], [], set()
+    adjust = [0] * POOL
+    known_off = [0] * POOL
     for op in [o.strip() for o in ops_s.split(";") if o.strip()]:
         kind, name, key, v, kv = parse_r_op(op)
         ctl.reset(kv)
@@ -190,23 +196,28 @@ def run_r(case):
                 shown.append("%s:%d" % (str.__str__(k_), ident[id(val)]))
             else:
                 shown.append("%s:?" % str.__str__(k_))
-        refs = [0] + [sys.getrefcount(pool[i]) - base[i] for i in range(1, POOL)]
+        k_ = val = None   # the loop variables would count as references
+        # `adjust` compensates the references this harness gives back (below), so that what is printed is what
+        # the code did, cumulatively - the same quantity as the model's held + stray
+        refs = [0] + [sys.getrefcount(pool[i]) - base[i] + adjust[i] for i in range(1, POOL)]
         outs.append("%s d={%s} r=[%s]" % (res, ",".join(sorted(shown)), ",".join(map(str, refs))))
         # ---------------- oracle: reference neutrality, from the state alone
         for i in range(1, POOL):
-            if refs[i] != held[i]:
+            off = refs[i] - held[i]
+            if off != known_off[i]:
                 which = "name" if i >= 10 else "value"
                 hits.append({"signature": "refcount:%sattr-%s:%s" % (kind, cls, which),
                              "what": "after `%s` (%s) object #%d has %+d references but obj.__dict__ holds %d" % (
                                  op, res, i, refs[i], held[i])})
-                # the count is off for good.  A deficit would free the object while we still hold it (and
-                # crash this process at the next collection): give the missing references back.
-                if refs[i] < held[i]:
-                    import ctypes
-                    for _ in range(held[i] - refs[i]):
-                        ctypes.pythonapi.Py_IncRef(ctypes.py_object(pool[i]))
-                else:
-                    base[i] += refs[i] - held[i]
+                known_off[i] = off
+            # A real deficit would free the object while we still hold it (and crash this process at the next
+            # collection): give the missing references back.
+            deficit = held[i] - (refs[i] - adjust[i])
+            if deficit > 0:
+                import ctypes
+                for _ in range(deficit):
+                    ctypes.pythonapi.Py_IncRef(ctypes.py_object(pool[i]))
+                adjust[i] -= deficit
     del safety
     return " ; ".join(outs), hits, tags
 
@@ -483,12 +494,13 @@ def program_signature(prog):
     if fam == "raw-ctrait":
         st = [s for s in prog["steps"] if s[0] == "raw_ctrait"][0]
         kind, prep = st[1], st[2]
-        if prep == "bare" and kind == 3:
-            return "raw-ctrait:delegate-kind-without-delegate"
-        if prep == "bare" and kind == 7:
-            return "raw-ctrait:constant-kind-without-default"
+        # by root cause: which field the installed handler dereferences was never filled
         if prep == "property-post-none":
             return "raw-ctrait:validated-property-post-setattr-none"
+        if kind == 3 and prep not in ("delegate", "property"):
+            return "raw-ctrait:delegate-kind-without-delegate"
+        if kind == 7 and prep not in ("default", "default-type", "property"):
+            return "raw-ctrait:constant-kind-without-default"
         if prep == "default-type":
             return "raw-ctrait:container-default-without-handler"
         return "raw-ctrait:%s:kind%s" % (prep, kind)
